@@ -20,7 +20,9 @@ type Num struct {
 	Neg   bool   `json:"neg"`
 }
 
-func (n Num) Y() yang.Number { return yang.Number{Value: n.Value, FractionDigits: n.FD, Negative: n.Neg} }
+func (n Num) Y() yang.Number {
+	return yang.Number{Value: n.Value, FractionDigits: n.FD, Negative: n.Neg}
+}
 func (n Num) String() string {
 	s := ""
 	if n.Neg {
@@ -30,10 +32,11 @@ func (n Num) String() string {
 }
 
 // Case: Op selects the clause.
-//   num:     round-trip, Int, FromInt/FromUint of A
-//   pair:    Less/Equal of A and B (same kind)
-//   literal: parse Lit as integer (FD == 0) or as decimal at precision FD
-//   modfd:   module text `fraction-digits Lit`
+//
+//	num:     round-trip, Int, FromInt/FromUint of A
+//	pair:    Less/Equal of A and B (same kind)
+//	literal: parse Lit as integer (FD == 0) or as decimal at precision FD
+//	modfd:   module text `fraction-digits Lit`
 type Case struct {
 	Op  string `json:"op"`
 	A   Num    `json:"a"`
